@@ -22,6 +22,12 @@ pub struct Case {
     pub threads: Option<Vec<Vec<usize>>>,
     /// records of a second lifetime (restart) to tell "once per lifetime" from "once per file"
     pub second_lifetime: Option<Vec<usize>>,
+    /// the (user-defined, wrapped) roller fails on its first call in the first lifetime
+    #[serde(default)]
+    pub fail_first_roll: bool,
+    /// append this many extra tiny records at the end of the first lifetime (latch must hold for the whole lifetime)
+    #[serde(default)]
+    pub long_lifetime: usize,
 }
 
 pub fn strategy() -> impl Strategy<Value = Case> {
@@ -34,8 +40,9 @@ pub fn strategy() -> impl Strategy<Value = Case> {
         lens(),
         prop::option::weighted(0.12, prop::collection::vec(prop::collection::vec(0usize..40, 1..=5), 2..=8)),
         prop::option::weighted(0.35, lens()),
+        prop::bool::weighted(0.2),
     )
-        .prop_map(|(min_size, pre, append_mode, count, records, threads, second_lifetime)| Case { min_size, pre, append_mode, count, records, threads, second_lifetime })
+        .prop_map(|(min_size, pre, append_mode, count, records, threads, second_lifetime, fail_first_roll)| Case { min_size, pre, append_mode, count, records, fail_first_roll: fail_first_roll && threads.is_none(), threads, second_lifetime, long_lifetime: 0 })
 }
 
 pub fn check(tmp: &Path, case: &Case, obs: &mut Obs) -> CaseResult {
@@ -66,7 +73,9 @@ fn check_in(dir: &Path, case: &Case, obs: &mut Obs) -> CaseResult {
     let mut archives: Vec<Vec<u8>> = vec![];
     for (li, recs) in lifetimes.iter().enumerate() {
         let roller = RollSpec::Fixed { base: 0, count: case.count, pattern: "old.{}.log".into() };
-        let policy = make_policy(dir, &TrigSpec::OnStartup(case.min_size), &roller).unwrap();
+        let roll_failures = Arc::new(std::sync::atomic::AtomicUsize::new(0));
+        let fail_script: Vec<bool> = if li == 0 && case.fail_first_roll { vec![true] } else { vec![] };
+        let policy = make_flaky_policy(dir, &TrigSpec::OnStartup(case.min_size), &roller, &fail_script, &roll_failures).unwrap();
         let app = Arc::new(build_appender(&path, case.append_mode, &None, policy).map_err(|e| Failure { sig: "C17:build".into(), msg: e.to_string() })?);
         // size of the log file that exists at start-up as this appender sees it
         let start_content: Vec<u8> = if case.append_mode { on_disk_before.clone() } else { vec![] };
@@ -74,7 +83,10 @@ fn check_in(dir: &Path, case: &Case, obs: &mut Obs) -> CaseResult {
         if (size_at_start as i128 - case.min_size as i128).abs() <= 1 {
             near = true;
         }
-        let must_roll = size_at_start >= case.min_size;
+        let wants_roll = size_at_start >= case.min_size;
+        // a roll that fails is not made up for later: "at most one rotation ... only while handling the first record"
+        let roll_fails = wants_roll && li == 0 && case.fail_first_roll;
+        let must_roll = wants_roll && !roll_fails;
         let mut expected_active: Vec<u8> = if must_roll { vec![] } else { start_content.clone() };
         if must_roll {
             archives.insert(0, start_content.clone());
@@ -133,16 +145,28 @@ fn check_in(dir: &Path, case: &Case, obs: &mut Obs) -> CaseResult {
                 ensure!(!arch(0).exists() || !archives.is_empty(), "C17:unexpected-roll", "threaded start: an archive appeared although the file at start-up ({} bytes) was smaller than min_size {}", size_at_start, case.min_size);
             }
         } else {
-            for (ri, len) in recs.iter().enumerate() {
+            let mut all: Vec<usize> = recs.clone();
+            if li == 0 {
+                all.extend(std::iter::repeat(0usize).take(case.long_lifetime));
+            }
+            for (ri, len) in all.iter().enumerate() {
                 let rec = record_text(0, seq, *len);
                 seq += 1;
+                let failing_now = roll_fails && ri == 0;
                 match catch(|| append_msg(&*app, &rec)) {
                     Err(p) => return fail("C17:panic", format!("append panicked: {}", p)),
-                    Ok(Err(e)) => return fail("C17:append-error", format!("append returned an error: {}", e)),
-                    Ok(Ok(())) => {}
+                    Ok(Err(e)) => ensure!(failing_now, "C17:append-error", "append returned an error: {}", e),
+                    Ok(Ok(())) => ensure!(!failing_now, "C17:error-swallowed", "the start-up roll failed but the append reported success"),
                 }
                 obs.sub_evals += 1;
-                expected_active.extend_from_slice(rec.as_bytes());
+                if !failing_now {
+                    // (a pre-processing trigger: the record of the failing append is not written)
+                    expected_active.extend_from_slice(rec.as_bytes());
+                }
+                // checking every one of tens of thousands of tiny records would be quadratic
+                if ri >= recs.len() && ri + 1 != all.len() && ri % 4099 != 0 {
+                    continue;
+                }
                 let active = std::fs::read(&path).unwrap_or_default();
                 ensure!(
                     active == expected_active,
@@ -172,6 +196,8 @@ fn check_in(dir: &Path, case: &Case, obs: &mut Obs) -> CaseResult {
     obs.class_if(!existed, "file-absent");
     obs.class_if(case.second_lifetime.is_some(), "second-lifetime");
     obs.class_if(!case.append_mode, "truncate-mode");
+    obs.class_if(case.fail_first_roll, "start-up-roll-fails");
+    obs.class_if(case.long_lifetime > 0, "lifetime>65536-records");
     Ok(())
 }
 
@@ -179,6 +205,12 @@ pub fn run(run: &Run) {
     let tmp = run.tmp.clone();
     let f = move |c: &Case, o: &mut Obs| check(&tmp, c, o);
     run.run_replays::<Case>("startup", &f);
+    if run.worker.0 == 0 {
+        // one very long lifetime: the "first record" latch must hold beyond any counter width one might pick
+        for (pre, min_size) in [(Some(10i64), 5u64), (Some(-3), 40)] {
+            run.eval_one("startup", &Case { min_size, pre, append_mode: true, count: 2, records: vec![3, 0, 7], threads: None, second_lifetime: None, fail_first_roll: false, long_lifetime: 70_000 }, &f);
+        }
+    }
     run.search("startup", run.tier.pick(1_500, 80_000), strategy(), &f);
 }
 
